@@ -143,7 +143,8 @@ class Ctx:
     def finish(self):
         if self.evaluations == 0:
             raise HarnessError("the monitor observed nothing")
-        rdir = os.path.join(VERIF, "replays", self.pid)
+        outbase = os.environ.get("VERIF_OUT_DIR") or VERIF   # mutant trials write elsewhere
+        rdir = os.path.join(outbase, "replays", self.pid)
         printed = 0
         seen_keys = set()
         for key, what, replay in self.violations:
@@ -185,11 +186,11 @@ class Ctx:
             "wall_s": round(time.time() - self.t0, 2),
             "violations": len(seen_keys),
         }
-        os.makedirs(os.path.join(VERIF, "evidence"), exist_ok=True)
-        tmp = os.path.join(VERIF, "evidence", ".%s.json.tmp" % self.pid)
+        os.makedirs(os.path.join(outbase, "evidence"), exist_ok=True)
+        tmp = os.path.join(outbase, "evidence", ".%s.json.tmp" % self.pid)
         with open(tmp, "w") as f:
             json.dump(ev, f, indent=1, default=str)
-        os.replace(tmp, os.path.join(VERIF, "evidence", "%s.json" % self.pid))
+        os.replace(tmp, os.path.join(outbase, "evidence", "%s.json" % self.pid))
         print("%s %s seed=%s: evaluations=%d distinct_nontrivial=%d violations=%d known=%d inconclusive=%d wall=%.1fs" % (
             self.pid, self.tier, self.seed, self.evaluations, len(self.nontrivial), len(seen_keys),
             len(self.known_seen), self.inconclusive, time.time() - self.t0))
@@ -214,3 +215,14 @@ def pmap(fn, items, workers=None):
         return []
     with ThreadPoolExecutor(max_workers=workers or NCPU) as ex:
         return list(ex.map(fn, items))
+
+
+def pmap_proc(fn, items, workers=None):
+    """Process-pool map (fork) for CPU-bound python work; fn must be a top-level function."""
+    import multiprocessing as mp
+    items = list(items)
+    if not items:
+        return []
+    ctxmp = mp.get_context("fork")
+    with ctxmp.Pool(processes=min(workers or NCPU, len(items))) as pool:
+        return pool.map(fn, items, chunksize=1)
